@@ -29,7 +29,11 @@ LAYOUTS = {
     "cell": ("{|\n|-\n| QA ", " || QM ", "\n|}"),
     "bold": ("'''QA ", " QM ", " QB''' QC"),
 }
-PLACES = ["page", "targ", "tnamed", "tbody"]
+PLACES = ["page", "targ", "tnamed", "tbody", "ppage", "ppage"]
+# "ppage": the region sits in a page R/k of the wiki database that the article transcludes with <pages index="R" from=k to=k'/>
+# (ParseUniq.create_pages: expanded by a SECOND expander with its own marker table, parsed by a nested parse_txt).  Consecutive
+# ppage regions share one <pages> range, so the second table holds several regions while the article's table holds the others:
+# the running numbers of the two tables overlap (both start at 0).
 BASE_DB = {"echo": "({{{1}}})", "c": "CCC", "Template:c": "CCC"}
 
 
@@ -98,8 +102,17 @@ def render(spec, bodies):
     pre, sep, post = LAYOUTS[spec["layout"]]
     db = dict(BASE_DB) if spec["db"] else None
     parts = []
+    run_start = None          # first page number of the <pages> range being built
     for i, (r, t) in enumerate(zip(spec["regions"], region_texts(spec, bodies))):
         p = r["place"]
+        if p == "ppage":
+            db["R/%d" % (i + 1)] = db["Page:R/%d" % (i + 1)] = "QX %s QY" % t
+            if run_start is None:
+                run_start = i + 1
+                parts.append(None)
+            parts[-1] = '<pages index="R" from=%d to=%d />' % (run_start, i + 1)
+            continue
+        run_start = None
         if p == "page":
             parts.append(t)
         elif p == "targ":
@@ -224,6 +237,22 @@ def systematic_pages(bodies_for):
                     spec = {"layout": layout, "db": db, "regions": regs}
                     if valid(spec):
                         pages.append(spec)
+    # a region in the article and a region in a page transcluded through <pages>: every pair of tags (same kind included: same tag
+    # name and same running number in the two marker tables), both orders, different bodies; and the nowiki-wrapped copy across the border
+    for bi, base in enumerate(OPAQUE):
+        for wi, w in enumerate(OPAQUE):
+            for order in (0, 1):
+                ra = {"tag": base, "attrs": "", "variant": "plain", "place": "page", "body": bodies_for(base, bi + wi)}
+                rp = {"tag": w, "attrs": "", "variant": "plain", "place": "ppage", "body": bodies_for(w, bi + wi + 3)}
+                spec = {"layout": "para", "db": True, "regions": [ra, rp] if order == 0 else [rp, ra]}
+                if valid(spec):
+                    pages.append(spec)
+        for place_b, place_w in (("page", "ppage"), ("ppage", "page"), ("ppage", "ppage")):
+            spec = {"layout": "para", "db": True, "regions": [
+                {"tag": base, "attrs": "", "variant": "plain", "place": place_b, "body": bodies_for(base, bi + 1)},
+                {"tag": "nowiki", "attrs": "", "variant": "plain", "place": place_w, "wrap": 0, "part": "complete"}]}
+            if valid(spec):
+                pages.append(spec)
     for bi, base in enumerate(OPAQUE):
         for w in OPAQUE:
             if w == base:
